@@ -154,8 +154,8 @@ def run_case(case):
 
 
 def health(classes, n, tier):
-    need = {"ll1": 0.2, "not_ll1": 0.2, "nullable_variable": 0.2, "nullable_nonempty_body": 0.03,
-            "left_recursive": 0.05, "ll1_with_nullable_and_members": 0.04}
+    need = {"ll1": 0.08, "not_ll1": 0.08, "nullable_variable": 0.08, "nullable_nonempty_body": 0.012,
+            "left_recursive": 0.02, "ll1_with_nullable_and_members": 0.016}
     for k, frac in need.items():
         if classes.get(k, 0) < frac * n:
             return "class %s too rare: %d of %d" % (k, classes.get(k, 0), n)
